@@ -7,8 +7,8 @@
 //! associativity and the position of this occurrence.
 //!
 //! For concrete examples, see the [`test`](../tests/index.html) module.
-use super::NormResult;
 use super::resolve;
+use super::{NormError, NormResult};
 use crate::grammar::parse_tree::{
     Alternative, ExprSymbol, Grammar, GrammarItem, NonterminalData, NonterminalString, Symbol,
     SymbolKind,
@@ -269,21 +269,29 @@ fn expand_nonterm(
 
             let symbol_kind = &SymbolKind::Nonterminal(name.clone());
             for (assoc, alt) in &mut alts_with_assoc {
-                let err_msg = "unexpected associativity attribute on the first precedence level";
-                let (subst, dir) = match assoc {
-                    Assoc::Left => (
-                        Substitution::OneThen(symbol_kind, nonterm_prev.as_ref().expect(err_msg)),
-                        Direction::Forward,
-                    ),
-                    Assoc::Right => (
-                        Substitution::OneThen(symbol_kind, nonterm_prev.as_ref().expect(err_msg)),
-                        Direction::Backward,
-                    ),
-                    Assoc::NonAssoc => (
-                        Substitution::Every(nonterm_prev.as_ref().expect(err_msg)),
-                        Direction::Forward,
-                    ),
-                    Assoc::FullyAssoc => (Substitution::Every(symbol_kind), Direction::Forward),
+                // Prevalidation rejects an associativity on the first level, but it runs before
+                // `#[cfg]` removes alternatives: the first level it saw may be gone by now.
+                let prev = match (&assoc, nonterm_prev.as_ref()) {
+                    (Assoc::FullyAssoc, _) => None,
+                    (_, Some(prev)) => Some(prev),
+                    (_, None) => {
+                        return Err(NormError {
+                            message: format!(
+                                "cannot set associativity on the first precedence level {lvl}"
+                            ),
+                            span: alt.span,
+                        });
+                    }
+                };
+                let (subst, dir) = match (assoc, prev) {
+                    (Assoc::Left, Some(prev)) => {
+                        (Substitution::OneThen(symbol_kind, prev), Direction::Forward)
+                    }
+                    (Assoc::Right, Some(prev)) => {
+                        (Substitution::OneThen(symbol_kind, prev), Direction::Backward)
+                    }
+                    (Assoc::NonAssoc, Some(prev)) => (Substitution::Every(prev), Direction::Forward),
+                    _ => (Substitution::Every(symbol_kind), Direction::Forward),
                 };
                 replace_nonterm(alt, &nonterm.name, subst, dir)
             }
@@ -308,7 +316,7 @@ fn expand_nonterm(
                 });
             }
 
-            GrammarItem::Nonterminal(NonterminalData {
+            Ok(GrammarItem::Nonterminal(NonterminalData {
                 visibility: nonterm.visibility.clone(),
                 name,
                 attributes: nonterm.attributes.clone(),
@@ -316,10 +324,10 @@ fn expand_nonterm(
                 args: nonterm.args.clone(), // macro arguments
                 type_decl: nonterm.type_decl.clone(),
                 alternatives,
-            })
+            }))
         });
 
-    let items = result.collect();
+    let items = result.collect::<NormResult<Vec<_>>>()?;
     assert!(rest.next().is_none());
     Ok(items)
 }
